@@ -329,7 +329,8 @@ def oracle(case, data, obs):
         return bad
     if obs["error"]:
         extra = (" (new files next to the link targets instead: %s)" % obs["stray"][:3]) if obs.get("stray") else ""
-        return [("exception", "%s raised %s: %s" % tuple(obs["error"]) + extra)]
+        kind = "location" if (obs["error"][0] == "collect" and obs["error"][1] == "FileNotFoundError") else "exception"
+        return [(kind, "%s raised %s: %s" % tuple(obs["error"]) + extra)]
     nap, ns = case["nap"], case["ns"]
     labels = np.array(case["labels"])
     if obs.get("status") != 1:
